@@ -97,7 +97,7 @@ fn stream_bytes(stream: &Stream) -> Vec<u8> {
 
 fn framewise(w: &Workload, src: &mut SimSource) -> Result<Stream, EncodeError> {
     use flacenc::source::Source;
-    let cfg = w.cfg.build(false, None, w.block);
+    let cfg = w.cfg.build(false, None, w.config_block());
     let mut stream = Stream::new(w.rate, w.channels, w.bits)?;
     stream
         .stream_info_mut()
@@ -132,10 +132,26 @@ fn body() {
         src.pre_read(w.pre_reads, w.block);
     }
     let mut mode = mode;
+    // Two encoders alive at the same time: a second caller thread of the same process runs another
+    // (possibly failing) encode concurrently with the observed one; it must not influence it.
+    let mut other_caller = None;
     if let (Mode::Par, Some(pre)) = (mode, w.pre.as_deref()) {
+        if pre.concurrent {
+            let pw = pre.w.clone();
+            let ppar = pre.par;
+            other_caller = Some(shuttle::thread::spawn(move || {
+                let mut psrc = SimSource::new(&pw);
+                let pcfg = pw.cfg.build(ppar, pw.workers, pw.config_block());
+                if let Ok(st) = flacenc::encode_with_fixed_block_size(&pcfg, &mut psrc, pw.block) {
+                    let _ = stream_bytes(&st);
+                }
+            }));
+        }
+    }
+    if let (Mode::Par, Some(pre)) = (mode, w.pre.as_deref().filter(|p| !p.concurrent)) {
         // (C10, multi-thread slice) an earlier call on the same simulated main thread; its result is discarded
         let mut psrc = SimSource::new(&pre.w);
-        let pcfg = pre.w.cfg.build(pre.par, pre.w.workers, pre.w.block);
+        let pcfg = pre.w.cfg.build(pre.par, pre.w.workers, pre.w.config_block());
         if let Ok(st) = flacenc::encode_with_fixed_block_size(&pcfg, &mut psrc, pre.w.block) {
             let _ = stream_bytes(&st);
         }
@@ -151,18 +167,23 @@ fn body() {
     let call_block = bad_block.unwrap_or(w.block);
     let res = match mode {
         Mode::Single => {
-            let cfg = w.cfg.build(false, w.workers, w.block);
+            let cfg = w.cfg.build(false, w.workers, w.config_block());
             flacenc::encode_with_fixed_block_size(&cfg, &mut src, call_block)
         }
         Mode::Par => {
-            let cfg = w.cfg.build(true, w.workers, w.block);
+            let cfg = w.cfg.build(true, w.workers, w.config_block());
             flacenc::encode_with_fixed_block_size(&cfg, &mut src, call_block)
         }
         Mode::Framewise => framewise(&w, &mut src),
     };
-    // the instant the call has returned
-    let live_at_return = verif::live_threads();
-    let live_states = verif::live_thread_states();
+    // the instant the call has returned (with a second encoder alive the process-wide thread counter cannot
+    // be attributed to this call; the end-of-execution leak check still applies)
+    let concurrent = other_caller.is_some();
+    let live_at_return = if concurrent { 0 } else { verif::live_threads() };
+    let live_states = if concurrent { vec![] } else { verif::live_thread_states() };
+    if let Some(h) = other_caller {
+        let _ = h.join();
+    }
     let (result, frames) = match &res {
         Ok(stream) => (Ok(stream_bytes(stream)), stream.frame_count()),
         Err(e) => (Err(err_info(e)), 0),
